@@ -76,3 +76,9 @@ Definition anysufb (pats : list word) (w : word) : bool := existsb (fun p => suf
 
 (* "complement is requested": flag c = contains *)
 Definition flagb (c b : bool) : bool := if c then b else negb b.
+
+(* the language a constructor promises: words over the alphabet satisfying P (or not P) *)
+Definition word_over (syms : list nat) (w : word) : Prop := Forall (fun a => In a syms) w.
+Definition flagP (c : bool) (P : Prop) : Prop := if c then P else ~ P.
+Definition promised (syms : list nat) (c : bool) (P : word -> Prop) : lang :=
+  fun w => word_over syms w /\ flagP c (P w).
